@@ -194,13 +194,13 @@ def run(ctx: Ctx):
             for seq in itertools.product(SYMBOLIC_ALPHABET, repeat=n):
                 run_history(ctx, base + list(seq), f"exhaustive{bv}")
     # (b) random
-    for _ in range(ctx.budget(300, 2500)):
+    for _ in range(ctx.budget(300, 2000)):
         run_history(ctx, random_history(rng), "random")
     # (c) histories around `difference`
-    for _ in range(ctx.budget(350, 3500)):
+    for _ in range(ctx.budget(350, 2500)):
         run_history(ctx, diff_history(rng), "difference")
     # (d) histories around time fields of different scale / format, equal epochs, epochs microseconds apart
-    for _ in range(ctx.budget(220, 1500)):
+    for _ in range(ctx.budget(220, 1200)):
         run_history(ctx, time_history(rng), "time")
 
 
